@@ -15,6 +15,7 @@ CONSTANTS
   FDataSet = {0, 99}
   LenSet = {5}
   CachedSet = {TRUE, FALSE}
+  DmgSet = {FALSE}
   KindSet = {"ok"}
   Modes = {"direct"}
   DeliverAnyTime = FALSE
